@@ -60,6 +60,8 @@ fn main() {
 		("C04", Some(c)) => checks::c04::replay(ctx.clone(), c),
 		("C08", None) => checks::c08::run(ctx.clone()),
 		("C08", Some(c)) => checks::c08::replay(ctx.clone(), c),
+		("C09", None) => checks::c09::run(ctx.clone()),
+		("C09", Some(c)) => checks::c09::replay(ctx.clone(), c),
 		("C10", None) => checks::c10::run(ctx.clone()),
 		("C10", Some(c)) => checks::c10::replay(ctx.clone(), c),
 		("C11", None) => checks::c11::run(ctx.clone()),
